@@ -146,6 +146,8 @@ class Taint:
         if isinstance(expr, ast.Name):
             if expr.id == "self":
                 return False
+            if expr.id == "__tainted__":
+                return True
             if defs is not None:
                 if expr.id in defs:
                     return rec(defs[expr.id])
@@ -203,9 +205,21 @@ class Taint:
                 # parameters bound to tainted arguments at this call: approximate by argument taint for pure helpers
                 if any(rec(a) for a in expr.args) and all(len(c.node.body) <= 12 for c in t.funcs):
                     for callee in t.funcs:
+                        params = list(callee.params)
+                        if callee.cls is not None and isinstance(f, ast.Attribute) and params and params[0] in ("self", "cls"):
+                            params = params[1:]
+                        bound = {p: ast.Name(id="__tainted__", ctx=ast.Load()) for p, a in zip(params, expr.args) if rec(a)}
+                        for k in expr.keywords:
+                            if k.arg and rec(k.value):
+                                bound[k.arg] = ast.Name(id="__tainted__", ctx=ast.Load())
+                        st2 = set(_stack or ())
+                        st2.add(("retp", callee))
+                        if ("retp", callee) in (_stack or ()):
+                            continue
                         for n in ast.walk(callee.node):
-                            if isinstance(n, ast.Return) and n.value is not None and any(
-                                    isinstance(x, ast.Name) and x.id in callee.params for x in ast.walk(n.value)):
+                            # the value returned is request-shaped only if it is built from the tainted parameter by
+                            # taint-propagating operations (a stat() or len() of it is not)
+                            if isinstance(n, ast.Return) and n.value is not None and self.is_tainted(n.value, callee, bound, st2, _depth + 1):
                                 return True
             return False
         return False
@@ -736,12 +750,13 @@ def pregate_stat_obligations(ctx, rep, rule, eff):
         for call, t in eff.calls_of(m, H):
             if id(call) in done_calls:
                 continue
-            is_stat = eff.is_vfs_call(t) and t.funcs[0].name in ("stat", "isdir", "isfile", "exists", "listdir", "open")
+            # os.path.exists/isdir/isfile (what the VFS predicates are built on) swallow ValueError and OSError themselves
+            is_stat = eff.is_vfs_call(t) and t.funcs[0].name in ("stat", "listdir", "open")
             if not is_stat:
                 continue
             done_calls.add(id(call))
             tries = enclosing_tries(m.node, call)
-            need = ["OSError", "ValueError"] if t.funcs[0].name in ("stat", "listdir", "open") else ["ValueError"]
+            need = ["OSError", "ValueError"]
             missing = [e for e in need if not any(catches(hd, e) for tr in tries for hd in tr.handlers)]
             rep.add(rule, f"{m.qualname}: {norm(call)[:50]}", not missing, ctx.where(m, call),
                     f"runs on a selector no filter has seen yet and does not catch {missing}: a selector containing a NUL byte makes os.stat raise "
